@@ -240,6 +240,12 @@ impl Default for RunCfg {
     }
 }
 
+impl From<&cvx_core::gen_basic::CfgLite> for RunCfg {
+    fn from(c: &cvx_core::gen_basic::CfgLite) -> Self {
+        RunCfg { max_instr: c.max_instr, mem_limit: c.mem_limit, stack: c.stack, call_stack: c.call_stack }
+    }
+}
+
 #[derive(Clone, Debug)]
 pub enum CompileOutcome {
     Ok,
